@@ -237,3 +237,18 @@ func (x *Exec) sprintf(st *State, args []*Val) (*Term, bool) {
 
 var _ = constant.MakeInt64
 var _ = strings.Contains
+
+// strLastIndex is strings.LastIndex(s, sep) as the function symbol strLastIndex with its defining
+// axioms instantiated for this pair of arguments: the start of the last occurrence of sep in s,
+// -1 if there is none. Program and specifications share the symbol.
+func (x *Exec) strLastIndex(st *State, s, sep *Term) *Term {
+	x.declareFun(st, "strLastIndex", []string{SStr, SStr}, SInt)
+	r := app(SInt, "strLastIndex", s, sep)
+	n, m := StrLen(s), StrLen(sep)
+	x.assume(st, And(Ge(r, IntLit(-1)), Le(r, Sub(n, m))), "strings.LastIndex range")
+	x.assume(st, Eq(Eq(r, IntLit(-1)), Not(StrContains(s, sep))), "strings.LastIndex absent")
+	x.assume(st, Implies(Eq(m, IntLit(0)), Eq(r, n)), "strings.LastIndex empty separator")
+	x.assume(st, Implies(And(Ge(r, IntLit(0)), Gt(m, IntLit(0))),
+		And(Eq(StrSubstr(s, r, m), sep), Not(StrContains(StrSubstr(s, Add(r, IntLit(1)), Sub(n, Add(r, IntLit(1)))), sep)))), "strings.LastIndex last occurrence")
+	return r
+}
